@@ -781,6 +781,99 @@ def launcher_stop(sl):
     observe("nodes are handled in order, one after the other", [c[1] for c in calls if c[0] != "metadata"] == sorted(c[1] for c in calls if c[0] != "metadata"))
 
 
+def launcher_partial_start(sl):
+    """the real ProcessLauncher.start for 1..3 nodes on one host where the launch of node k fails (per-node launch stubbed): a node that was
+    already launched when the start fails must not be left running - nobody gets to know it, so nobody would ever stop it"""
+    from esrally.mechanic import launcher
+
+    n = sl["nodes"]
+    fail_at = concrete(fresh_int("launch_of_node_k_fails_(n_=_none)", 0, n))
+    running, calls = set(), []
+
+    class NoSuchProcess(Exception):
+        pass
+
+    class TimeoutExpired(Exception):
+        pass
+
+    class Proc:
+        def __init__(self, pid):
+            self.pid = pid
+            if pid not in running:
+                raise NoSuchProcess()
+
+        def terminate(self):
+            calls.append(("terminate", self.pid))
+            running.discard(self.pid)
+
+        def wait(self, t):
+            pass
+
+        def kill(self):
+            running.discard(self.pid)
+
+    class Psutil:
+        Process = Proc
+
+    Psutil.NoSuchProcess, Psutil.TimeoutExpired = NoSuchProcess, TimeoutExpired
+
+    class Tel:
+        def detach_from_node(self, node, running):
+            pass
+
+        def store_system_metrics(self, node, store):
+            pass
+
+    class TelNs:
+        @staticmethod
+        def add_metadata_for_node(store, node_name, host_name):
+            pass
+
+    class Watch:
+        def start(self):
+            pass
+
+        def split_time(self):
+            return 1.0
+
+    class Clk:
+        @staticmethod
+        def stop_watch():
+            return Watch()
+
+    class Node:
+        def __init__(self, i):
+            self.node_name, self.host_name, self.pid, self.telemetry = "node-%d" % i, "host", 100 + i, Tel()
+
+    pl = launcher.ProcessLauncher(actors.Cfg(), clock=Clk)
+    launched = []
+
+    def start_node(node_configuration, node_count_on_host):
+        i = node_configuration
+        if i == fail_at:
+            raise exceptions.LaunchError("node %d did not start" % i)
+        running.add(100 + i)
+        launched.append(i)
+        return Node(i)
+
+    pl._start_node = start_node
+    with shadowed(launcher, (), extra={"psutil": Psutil, "telemetry": TelNs}):
+        try:
+            nodes = pl.start(list(range(n)))
+            how = "ret"
+        except exceptions.LaunchError:
+            nodes, how = None, "raise"
+    core.trace("launched", len(launched))
+    core.note("launched / still running", (launched, sorted(running)))
+    if fail_at == n:
+        observe("all nodes launched: all of them are handed to the caller (who stops them later)", how == "ret" and [x.pid for x in nodes] == [100 + i for i in range(n)]
+                and running == {100 + i for i in range(n)})
+    else:
+        observe("a failing launch fails the start", how == "raise")
+        observe("no node that was launched before the failure is left running (the caller never gets a handle to stop it)", not running)
+        observe("nodes are launched in order up to the failing one", launched == list(range(fail_at)))
+
+
 READS = [mechanic.MechanicActor.receiveMsg_StartEngine, mechanic.MechanicActor.receiveMsg_NodesStarted, mechanic.MechanicActor.receiveMsg_StopEngine,
          mechanic.MechanicActor.receiveMsg_NodesStopped, mechanic.MechanicActor.receiveMsg_BenchmarkFailure, mechanic.MechanicActor.receiveMsg_PoisonMessage,
          mechanic.MechanicActor.receiveMsg_ChildActorExited, mechanic.MechanicActor.on_all_nodes_started, mechanic.MechanicActor.on_all_nodes_stopped,
@@ -807,6 +900,9 @@ HARNESSES = [
             doc="daemon joins and departures in every dispatcher state"),
     Harness("node_start_stop", node_start_stop, "symbolic", lambda tier: [{"stop": h} for h in ("StopNodes", "ActorExitRequest")], reads=READS, stubs=STUBS,
             bounds={"nodes per host": "1..2", "start failure": "none / supply / provision / launch / launch with a third-party exception (psutil.NoSuchProcess)"}, doc="node start, failure reporting, stop order, stop exactly once"),
+    Harness("launcher_partial_start", launcher_partial_start, "bounded-exhaustive", lambda tier: [{"nodes": k} for k in (1, 2, 3)], reads=READS,
+            stubs=["ProcessLauncher._start_node (records a running pid or fails)", "psutil, telemetry, stop watch"],
+            bounds={"nodes on the host": "1..3", "failing launch": "none or any position"}, doc="a start that fails half-way leaves no launched node behind"),
     Harness("launcher_stop", launcher_stop, "bounded-exhaustive", lambda tier: [{"nodes": 1}, {"nodes": 2}], reads=READS,
             stubs=["psutil (process alive / gone / vanishing on terminate / needing a kill / vanishing on kill)", "telemetry recorder", "stop watch"],
             bounds={"nodes": "1..2", "fate per process": 5, "metrics store": "given or not"}, doc="ProcessLauncher.stop: every node exactly once, system metrics in any case"),
